@@ -1,16 +1,38 @@
 /-
   C15 — error-context transforms apply innermost-first, exactly once.
-  INTERIM file.  Proved here about the model of `Context` (a value after the
-  `fix:` commits): applying a context appends exactly its chain, innermost
-  first; a push extends the chain at the inner end; a push on a locked context
-  is ignored; `raw` empties the chain and locks; `unrecoverable` keeps the
-  chain; sending with a sink logs the transformed error exactly once, without a
-  sink hands the error back unchanged.  The tree-level theorem (`run` on
-  operation trees = `Spec.expectedProbes`) is in progress; the `ctxops`
-  correspondence family + oracle carries it meanwhile.
+
+  English.  A *context-operation tree* is a grammar built from `probe tag`
+  (raise an error here and record what happens to it), `ctxPushed tag a` /
+  `ctxPush tag a` (run `a` under one more error transform `tag`), `ctxLocked
+  flag a`, `raw a` (strip all transforms and lock), `unrecoverable a` (no sink),
+  `both a b`, `center a b c` (siblings, run on clones of the context).  The
+  specification `Spec.expectedProbes` computes from the *tree alone* — from the
+  nesting of operations around each probe — the list of probes in order, each
+  with: is the error delivered to the sink, and the tags of the transforms
+  applied to it, innermost first.
+
+  * `C15_tree`: for every such tree, every lexer, every context value with the
+    given chain / lock / sink, every world and every fuel for which `run` is
+    not out of fuel: `run` succeeds and returns the lexer unchanged; the sink log
+    grows by exactly the errors `⟨trail, probe tag⟩` of the expected `sent`
+    probes, in order (each transformed by exactly the k enclosing unlocked
+    pushes, innermost first, once; locked pushes ignored; `raw` strips; sibling
+    clones neither duplicate nor reorder); the probe log grows by exactly one
+    record per expected probe, which is the string `run` builds from `(tag, sent,
+    trail)` of that expectation; recover flags and closure table are untouched.
+  * `C15_tree_fuel`: fuel `ctxDepth g + 1` suffices (so `C15_tree` is not vacuous).
+  * `C15_tree_count`, `C15_tree_nth`: the number of new probe records and the
+    j-th new record, as corollaries.
+  * The interim theorems about the `Context` value itself are kept below.
+
+  Lean: `run` is the model of the combinators + `Context` (TephraModel.Run),
+  checked against the Rust on the `ctxops` family; `CtxRefine.probeLine` is the
+  record format of the `.probe` case of `run` (`C15_probe_line` shows it).
+  Unbounded: any tree, lexer, scanner, fuel, initial world.
 -/
 import TephraModel.Run
 import TephraModel.Spec.Ctx
+import TephraProofs.CtxRefine
 
 namespace Tephra.Props
 open Tephra
@@ -35,5 +57,82 @@ theorem C15_send (c : Ctx) (e : PErr) (W : World) :
   constructor <;> intro h <;> simp [sendError, h]
 
 example : (((⟨true, [], false⟩ : Ctx).pushed 1).pushed 2).apply ⟨[], .probe 0⟩ = ⟨[2, 1], .probe 0⟩ := by decide
+
+/-! ### the tree-level theorem -/
+
+open CtxRefine in
+/-- The record format: exactly the string of the `.probe` case of `run`. -/
+theorem C15_probe_line (R : RunEnv) (lx : Lx) (tag : Nat) (sent : Bool) (trail : List Nat) :
+    probeLine R lx ⟨tag, sent, trail⟩ =
+      (let sent := if sent then "sent" else "back:" ++ GWire.showErr (mkErr (.probe tag))
+       let applied := GWire.showErr ⟨trail, .probe tag⟩
+       s!"P{tag}:{sent}:{applied}:{showLexer R lx}") := rfl
+
+open CtxRefine in
+theorem C15_tree (R : RunEnv) (g : G) (active : List Nat) (locked sink : Bool) (exp : List Spec.ProbeExp)
+    (hexp : Spec.expectedProbes g active locked sink = some exp)
+    (n : Nat) (lx : Lx) (ctx : Ctx) (W : World)
+    (hc : ctx.chain = active) (hl : ctx.locked = locked) (hs : ctx.sink = sink)
+    (hfuel : (run R n g lx ctx W).1 ≠ .fuel) :
+    ∃ v W', run R n g lx ctx W = (.ok v lx, W') ∧
+      W'.log = W.log ++ ((exp.filter (·.sent)).map fun p => ⟨p.trail, .probe p.tag⟩) ∧
+      W'.probes = W.probes ++ exp.map (probeLine R lx) ∧
+      W'.found = W.found ∧ W'.specs = W.specs := by
+  rcases run_tree R g active locked sink exp hexp n lx ctx W hc hl hs with h | h
+  · exact absurd h.1 hfuel
+  · obtain ⟨v, hv⟩ := h.res
+    exact ⟨v, (run R n g lx ctx W).2, Prod.ext hv rfl, h.log, h.probes, h.found, h.specs⟩
+
+open CtxRefine in
+theorem C15_tree_fuel (R : RunEnv) (g : G) (active : List Nat) (locked sink : Bool) (exp : List Spec.ProbeExp)
+    (hexp : Spec.expectedProbes g active locked sink = some exp)
+    (n : Nat) (lx : Lx) (ctx : Ctx) (W : World)
+    (hc : ctx.chain = active) (hl : ctx.locked = locked) (hs : ctx.sink = sink)
+    (hn : ctxDepth g + 1 ≤ n) :
+    (run R n g lx ctx W).1 ≠ .fuel := by
+  rcases run_tree R g active locked sink exp hexp n lx ctx W hc hl hs with h | h
+  · omega
+  · obtain ⟨v, hv⟩ := h.res
+    rw [hv]; simp
+
+open CtxRefine in
+theorem C15_tree_count (R : RunEnv) (g : G) (active : List Nat) (locked sink : Bool) (exp : List Spec.ProbeExp)
+    (hexp : Spec.expectedProbes g active locked sink = some exp)
+    (n : Nat) (lx : Lx) (ctx : Ctx) (W : World)
+    (hc : ctx.chain = active) (hl : ctx.locked = locked) (hs : ctx.sink = sink)
+    (hfuel : (run R n g lx ctx W).1 ≠ .fuel) :
+    (run R n g lx ctx W).2.probes.length = W.probes.length + exp.length := by
+  obtain ⟨v, W', h, _, hp, _⟩ := C15_tree R g active locked sink exp hexp n lx ctx W hc hl hs hfuel
+  rw [h]; simp [hp]
+
+open CtxRefine in
+theorem C15_tree_nth (R : RunEnv) (g : G) (active : List Nat) (locked sink : Bool) (exp : List Spec.ProbeExp)
+    (hexp : Spec.expectedProbes g active locked sink = some exp)
+    (n : Nat) (lx : Lx) (ctx : Ctx) (W : World)
+    (hc : ctx.chain = active) (hl : ctx.locked = locked) (hs : ctx.sink = sink)
+    (hfuel : (run R n g lx ctx W).1 ≠ .fuel) (j : Nat) (hj : j < exp.length) :
+    (run R n g lx ctx W).2.probes[W.probes.length + j]? = some (probeLine R lx exp[j]) := by
+  obtain ⟨v, W', h, _, hp, _⟩ := C15_tree R g active locked sink exp hexp n lx ctx W hc hl hs hfuel
+  rw [h]; simp [hp, hj]
+
+/-- Non-vacuity: a tree with two nested pushes, a locked push, a `raw` subtree
+and an `unrecoverable` sibling; under an empty unlocked context with a sink the
+log receives `[2,1]`, `[2,1]` (locked push `3` ignored) and `[]` (raw), and the
+probe under `unrecoverable` is handed back. -/
+example (R : RunEnv) (lx : Lx) (W : World) :
+    ∃ v W', run R 7
+        (.ctxPushed 1 (.ctxPush 2 (.center (.probe 10) (.ctxLocked true (.ctxPushed 3 (.probe 11)))
+          (.both (.raw (.ctxPushed 4 (.probe 12))) (.unrecoverable (.probe 13))))))
+        lx ⟨true, [], false⟩ W = (.ok v lx, W') ∧
+      W'.log = W.log ++ [⟨[2, 1], .probe 10⟩, ⟨[2, 1], .probe 11⟩, ⟨[], .probe 12⟩] ∧
+      W'.probes.length = W.probes.length + 4 := by
+  have hexp : Spec.expectedProbes
+      (.ctxPushed 1 (.ctxPush 2 (.center (.probe 10) (.ctxLocked true (.ctxPushed 3 (.probe 11)))
+          (.both (.raw (.ctxPushed 4 (.probe 12))) (.unrecoverable (.probe 13))))))
+      [] false true = some [⟨10, true, [2, 1]⟩, ⟨11, true, [2, 1]⟩, ⟨12, true, []⟩, ⟨13, false, [2, 1]⟩] := by
+    decide
+  have hf := C15_tree_fuel R _ _ _ _ _ hexp 7 lx ⟨true, [], false⟩ W rfl rfl rfl (by decide)
+  obtain ⟨v, W', h, hlog, hp, _⟩ := C15_tree R _ _ _ _ _ hexp 7 lx ⟨true, [], false⟩ W rfl rfl rfl hf
+  exact ⟨v, W', h, by simpa using hlog, by simp [hp]⟩
 
 end Tephra.Props
